@@ -22,6 +22,7 @@ import (
 
 	"github.com/hprose/hprose-golang/v3/io"
 	"github.com/hprose/hprose-golang/v3/rpc/core"
+	"github.com/modern-go/reflect2"
 )
 
 type contextMissingMethod = func(ctx context.Context, name string, args []interface{}) (result []interface{}, err error)
@@ -162,8 +163,9 @@ func (p *Provider) Execute(ctx context.Context, name string, args []interface{})
 	out := f.Call(in)
 	n = len(out)
 	if method.ReturnError() {
-		if !out[n-1].IsNil() {
-			err = out[n-1].Interface().(error)
+		// a result of a concrete error type that has no nil (a struct) is always an error
+		if e := out[n-1]; !reflect2.IsNullable(e.Kind()) || !e.IsNil() {
+			err = e.Interface().(error)
 		}
 		out = out[:n-1]
 		n--
